@@ -41,7 +41,7 @@ func curGID() int64 {
 }
 
 // yield points INSIDE a lock, used only by lock-held probes (one thread at a time asks for one)
-var probePoints = map[string]bool{"bus.send.snapshot": true, "bus.listen.register": true}
+var probePoints = map[string]bool{"bus.send.snapshot": true, "bus.listen.register": true, "pull.opened": true}
 
 type thread struct {
 	extra  atomic.Value // string: the probe point this thread also parks at
@@ -52,24 +52,53 @@ type thread struct {
 	at     string // last yield point reached
 	ended  bool
 	steps  int
+	// PullID: the call returns at once and its goroutine (not one of ours) opens the inner Pull later;
+	// that goroutine is adopted when it reaches pullid.open and becomes the thread's second step
+	wantAdopt   bool
+	adoptCh     chan *thread
+	adoptee     *thread
+	callerEnded bool
 }
 
 type controller struct {
-	mu      sync.RWMutex
-	threads map[int64]*thread
+	mu       sync.RWMutex
+	threads  map[int64]*thread
+	adopting *thread // the PullID caller waiting for its goroutine
 }
 
 var ctl = &controller{threads: map[int64]*thread{}}
 
 func init() {
 	verifhook.Set(func(point string) {
-		if !gatePoints[point] && !probePoints[point] {
+		if !gatePoints[point] && !probePoints[point] && point != "pullid.open" {
 			return
 		}
 		gid := curGID()
 		ctl.mu.RLock()
 		t := ctl.threads[gid]
 		ctl.mu.RUnlock()
+		if point == "pullid.open" {
+			if t != nil {
+				return
+			}
+			ctl.mu.Lock()
+			caller := ctl.adopting
+			ctl.adopting = nil
+			var a *thread
+			if caller != nil {
+				a = &thread{gid: gid, park: make(chan string), resume: make(chan struct{}), done: make(chan struct{})}
+				a.extra.Store("")
+				ctl.threads[gid] = a
+			}
+			ctl.mu.Unlock()
+			if a == nil {
+				return
+			}
+			caller.adoptCh <- a
+			a.park <- point
+			<-a.resume
+			return
+		}
 		if t == nil {
 			return
 		}
@@ -113,6 +142,32 @@ func (c *controller) step(t *thread) error {
 	if t.ended {
 		return fmt.Errorf("thread already ended")
 	}
+	if t.wantAdopt && t.callerEnded {
+		// second step of a PullID thread: its goroutine opens the inner Pull
+		a := t.adoptee
+		a.extra.Store("pull.opened")
+		a.resume <- struct{}{}
+		select {
+		case p := <-a.park:
+			if p != "pull.opened" {
+				return fmt.Errorf("PullID goroutine parked at %q", p)
+			}
+		case <-time.After(stepTimeout):
+			return fmt.Errorf("PullID goroutine did not open its Pull within %v", stepTimeout)
+		}
+		a.extra.Store("")
+		c.mu.Lock()
+		delete(c.threads, a.gid)
+		c.mu.Unlock()
+		a.resume <- struct{}{} // it runs free from here on
+		t.ended = true
+		return nil
+	}
+	if t.wantAdopt {
+		c.mu.Lock()
+		c.adopting = t
+		c.mu.Unlock()
+	}
 	t.resume <- struct{}{}
 	t.steps++
 	select {
@@ -120,6 +175,22 @@ func (c *controller) step(t *thread) error {
 		t.at = p
 		return nil
 	case <-t.done:
+		if t.wantAdopt {
+			// the call has returned; wait for its goroutine to reach pullid.open
+			select {
+			case a := <-t.adoptCh:
+				select {
+				case <-a.park:
+				case <-time.After(stepTimeout):
+					return fmt.Errorf("adopted goroutine did not park")
+				}
+				t.adoptee = a
+				t.callerEnded = true
+				return nil
+			case <-time.After(stepTimeout):
+				return fmt.Errorf("PullID's goroutine did not reach pullid.open within %v", stepTimeout)
+			}
+		}
 		t.ended = true
 		return nil
 	case <-time.After(stepTimeout):
@@ -130,6 +201,17 @@ func (c *controller) step(t *thread) error {
 // abandon lets every unfinished thread run to its end (used after a failure so nothing leaks)
 func (c *controller) abandon(ts []*thread) {
 	for _, t := range ts {
+		if t.wantAdopt && t.callerEnded && !t.ended {
+			c.mu.Lock()
+			delete(c.threads, t.adoptee.gid)
+			c.mu.Unlock()
+			select {
+			case t.adoptee.resume <- struct{}{}:
+			case <-time.After(stepTimeout):
+			}
+			t.ended = true
+			continue
+		}
 		for !t.ended {
 			select {
 			case t.resume <- struct{}{}:
